@@ -102,6 +102,9 @@ func (e *SpecEnv) lookupPkg(name string) *types.Package {
 
 func (e *SpecEnv) resolveType(s string) types.Type {
 	switch {
+	case s == "byteslice":
+		// the type []byte where only an identifier can be written: typeis(x, byteslice), unbox(x, byteslice) (ext_c09.go)
+		return types.NewSlice(types.Universe.Lookup("byte").Type()) // prints as []byte, like the type assertions in the code (tagOf keys by type string)
 	case strings.HasPrefix(s, "map["):
 		// map[K]V (C05: spec functions over map-typed parameters)
 		d, j := 0, -1
@@ -796,6 +799,9 @@ func (e *SpecEnv) evalCall(x *ECall) SV {
 					payload = app(box, v.t)
 				}
 				return SV{t: app("mk-iface", tag, payload), typ: types.NewInterfaceType(nil, nil)}
+			case "unbox":
+				// unbox(x, T): the T value held by interface x (ext_c09.go)
+				return e.specUnbox(e.eval(x.Args[0]), e.resolveType(exprString(x.Args[1])))
 			case "typeis":
 				// typeis(x, T): dynamic type of interface x is T
 				v := e.eval(x.Args[0])
